@@ -137,12 +137,14 @@ class Scheduler:
         sv["_start_new_thread"] = threading._start_new_thread
         sv["join"] = threading.Thread.join
         sv["sleep"] = time.sleep
+        sv["is_alive"] = threading.Thread.is_alive
         sched = self
         threading._allocate_lock = lambda: SimLock(sched)  # type: ignore[assignment]
         threading.Lock = lambda: SimLock(sched)  # type: ignore[assignment,misc]
         threading._CRLock = None  # type: ignore[assignment]
         threading._start_new_thread = self._start_new_thread  # type: ignore[assignment]
         threading.Thread.join = _patched_join(self)  # type: ignore[method-assign]
+        threading.Thread.is_alive = _patched_is_alive(self)  # type: ignore[method-assign]
         time.sleep = self.sleep  # type: ignore[assignment]
         if self.preempt_files and self.preemptions_left > 0:
             threading.settrace(self._trace)
@@ -157,6 +159,7 @@ class Scheduler:
         threading._CRLock = sv["_CRLock"]
         threading._start_new_thread = sv["_start_new_thread"]
         threading.Thread.join = sv["join"]  # type: ignore[method-assign]
+        threading.Thread.is_alive = sv["is_alive"]  # type: ignore[method-assign]
         time.sleep = sv["sleep"]
         if self.preempt_files:
             sys.settrace(None)
@@ -399,6 +402,21 @@ def _patched_join(sched: Scheduler):
         orig(self, 5.0)
 
     return join
+
+
+def _patched_is_alive(sched: Scheduler):
+    """Thread.is_alive() of a simulated thread = its simulated state (added by S7): the real answer depends on how fast the OS
+    thread finishes its bootstrap after the simulated work is done, i.e. on real time."""
+    orig = threading.Thread.is_alive
+
+    def is_alive(self: threading.Thread) -> bool:
+        if sched.active and not sched.aborting and self._started.is_set():  # type: ignore[attr-defined]
+            tcb = sched._by_ident.get(self.ident or -1)
+            if tcb is not None and tcb.idx != 0:
+                return tcb.state != DONE
+        return orig(self)
+
+    return is_alive
 
 
 def selector_block(sched: Scheduler, ready: Callable[[], bool], timeout: float | None) -> None:
